@@ -426,7 +426,7 @@ func transfer(input OmegaInput) (output OmegaOutput) {
 	}
 	// m
 	rawData := input.VM.Memory.Read(o, types.TransferMemoSize)
-	if accountD, accountExists := input.Addition.ResultContextX.PartialState.ServiceAccounts[types.ServiceID(d)]; !accountExists {
+	if accountD, accountExists := input.Addition.ResultContextX.PartialState.ServiceAccounts[types.ServiceID(d)]; !accountExists || d >= 1<<32 {
 		// not exist
 		input.VM.Registers[7] = WHO
 		return OmegaOutput{
@@ -508,7 +508,7 @@ func eject(input OmegaInput) (output OmegaOutput) {
 	serviceID := input.Addition.ResultContextX.ServiceID
 
 	accountD, accountExists := input.Addition.ResultContextX.PartialState.ServiceAccounts[types.ServiceID(d)]
-	if !(types.ServiceID(d) != serviceID && accountExists) {
+	if !(types.ServiceID(d) != serviceID && accountExists && d < 1<<32) {
 		// bold{d} = panic => CONTINUE, WHO
 		input.VM.Registers[7] = WHO
 		return OmegaOutput{
@@ -910,8 +910,8 @@ func provide(input OmegaInput) (output OmegaOutput) {
 
 	// a = d[s*] or nil,  d = (x_u)_d
 	account, accountExists := input.Addition.ResultContextX.PartialState.ServiceAccounts[s]
-	if !accountExists {
-		// otherwise if a = nil
+	if !accountExists || (input.VM.Registers[7] >= 1<<32 && input.VM.Registers[7] != 0xffffffffffffffff) {
+		// otherwise if a = nil (a 64-bit value that is not a service id denotes no account)
 		input.VM.Registers[7] = WHO
 		return OmegaOutput{
 			ExitReason: ExitContinue,
